@@ -1,6 +1,7 @@
 // C06 (matching and precedence: runFSM walk, rule accumulation order, cursor adjustment) and C02 (slot map capacity)
 #include "invariants.h"
 #include "inc/Pass.h"
+using namespace graphite2::vm;
 #ifndef NSTATES
 #define NSTATES 3
 #endif
@@ -130,5 +131,92 @@ VH_ENTRY vh_adjust() {
   if (p < 0 || p >= (int)NS) ASSERT(out == 0, "cursor moved past either end is NULL");
   else ASSERT(out == w.sl[p], "cursor lands on the slot |delta| steps from the rule's last slot (first/last slot when the rule ran off the stream)");
   ASSERT(inv_stream(w), "adjustSlot does not touch the stream");
+  VH_END();
+}
+
+// ---- C02 item 4: slot map capacity.  A state machine that keeps matching (cyclic transition table - the loader only checks that every
+// entry is a state) over a stream longer than the map: runFSM never writes beyond m_slot_map[MAX_SLOTS] and reports the overflow.
+#ifndef LONGN
+#define LONGN 66
+#endif
+VH_ENTRY vh_runfsm_long() {
+  World w; vh_make_face(w);
+  Segment *seg = vh_new<Segment>();
+  memset((void *)seg, 0, sizeof(Segment));
+  seg->m_face = w.face; seg->m_silf = w.silf;
+  Slot *sl[LONGN];
+  for (unsigned i = 0; i < LONGN; ++i) { sl[i] = vh_new<Slot>(); ::new (sl[i]) Slot(0); sl[i]->m_glyphid = nondet_u8() & 1; }
+  for (unsigned i = 0; i < LONGN; ++i) { sl[i]->m_next = i + 1 < LONGN ? sl[i + 1] : 0; sl[i]->m_prev = i ? sl[i - 1] : 0; }
+  seg->m_first = sl[0]; seg->m_last = sl[LONGN - 1]; seg->m_numGlyphs = LONGN; seg->m_numCharinfo = LONGN;
+  // two states, one column, state 1 loops on glyph 0; glyph 1 is unknown to the pass (stops the walk)
+  Pass *p = vh_new<Pass>();
+  memset((void *)p, 0, sizeof(Pass));
+  p->m_silf = w.silf; p->m_numStates = 2; p->m_numTransition = 2; p->m_numSuccess = 0; p->m_successStart = 2; p->m_numColumns = 1; p->m_numGlyphs = 1;
+  p->m_minPreCtxt = 0; p->m_maxPreCtxt = 0;
+  uint16 *cols = vh_new<uint16>(1); cols[0] = 0;
+  uint16 *starts = vh_new<uint16>(1); starts[0] = 1;
+  uint16 *trans = vh_new<uint16>(2); trans[0] = 0; trans[1] = 1;
+  State *states = vh_new<State>(2); states[0].rules = states[0].rules_end = 0; states[1].rules = states[1].rules_end = 0;
+  p->m_cols = cols; p->m_startStates = starts; p->m_transitions = trans; p->m_states = states;
+  SlotMap smap(*seg, 0, 8);
+  FiniteStateMachine fsm(smap, 0);
+  Slot *slot = sl[0];
+  bool ok = p->runFSM(fsm, slot);
+  ASSERT(smap.size() <= SlotMap::MAX_SLOTS, "never more than MAX_SLOTS entries in the slot map");
+  unsigned run = 0; for (unsigned i = 0; i < LONGN; ++i) { if (sl[i]->m_glyphid != 0) break; ++run; }
+  if (run >= SlotMap::MAX_SLOTS) ASSERT(!ok, "a match longer than the slot map is reported as no match");
+  VH_END();
+}
+
+// ---- C06 (4) / C02 (7): the rule loop of Pass::runGraphite.  findNDoRule (FSM match + constraint + action + cursor adjustment) is replaced by
+// a scripted stub that moves the cursor to an arbitrary slot and sets the high-water flag arbitrarily; the loop bookkeeping is compared with
+// the documented semantics: the engine resumes at the position the rule returned, unless MaxRuleLoop consecutive applications failed to
+// reach the high-water mark, in which case it jumps to the high-water slot.
+#ifndef SCRIPT
+#define SCRIPT 5
+#endif
+static unsigned vh_calls; static Slot *vh_seen[SCRIPT + 2]; static uint8_t vh_move[SCRIPT + 1]; static bool vh_hp[SCRIPT + 1]; static Slot **vh_sl; static unsigned vh_ns;
+extern "C" void vh_stub_findndorule(const Pass *self, Slot **slot, Machine *m, FiniteStateMachine *fsm)
+    asm("_ZNK9graphite24Pass11findNDoRuleERPNS_4SlotERNS_2vm7MachineERNS_18FiniteStateMachineE");
+void vh_stub_findndorule(const Pass *, Slot **slot, Machine *m, FiniteStateMachine *) {
+  unsigned k = vh_calls < SCRIPT + 1 ? vh_calls : SCRIPT + 1;
+  if (k <= SCRIPT) vh_seen[k] = *slot;
+  ++vh_calls;
+  if (k >= SCRIPT) { *slot = 0; return; }                 // script exhausted: the rule runs off the end
+  *slot = vh_move[k] < vh_ns ? vh_sl[vh_move[k]] : 0;
+  m->slotMap().highpassed(vh_hp[k]);
+}
+
+VH_ENTRY vh_rule_loop() {
+  World w; vh_make_face(w); vh_make_segment(w);
+  ASSUME(inv_stream(w));
+  vh_sl = w.sl; vh_ns = NS; vh_calls = 0;
+  for (unsigned k = 0; k < SCRIPT; ++k) { vh_move[k] = nondet_u8(); ASSUME(vh_move[k] <= NS); vh_hp[k] = nondet_u8() & 1; }
+  Pass *p = vh_new<Pass>();
+  memset((void *)p, 0, sizeof(Pass));
+  p->m_silf = w.silf; p->m_numRules = 1; p->m_iMaxLoop = 1 + (nondet_u8() % 3);
+  const unsigned maxloop = p->m_iMaxLoop;
+  SlotMap smap(*w.seg, 0, 8);
+  FiniteStateMachine fsm(smap, 0);
+  Machine m(smap);
+  bool ok = p->runGraphite(m, fsm, false);
+  ASSERT(ok, "a pass without collision fixing succeeds");
+  // reference bookkeeping over the same script
+  int cur = 0;                      // index of the cursor slot, NS = NULL
+  int hw = NS > 1 ? 1 : NS;         // high-water: the slot after the first
+  unsigned lc = maxloop; unsigned calls = 0;
+  for (unsigned k = 0; k < SCRIPT + 2 && cur != (int)NS; ++k) {
+    ASSERT(calls < vh_calls && vh_seen[calls] == w.sl[cur], "each rule search starts where the previous rule returned (or at the high-water slot after MaxRuleLoop non-advancing applications)");
+    int ret = calls < SCRIPT ? (vh_move[calls] < NS ? vh_move[calls] : (int)NS) : (int)NS;
+    bool hp = calls < SCRIPT ? vh_hp[calls] : false;
+    ++calls;
+    cur = ret;
+    if (cur != (int)NS) {
+      bool advanced = (cur == hw) || hp;
+      if (advanced) { lc = maxloop; hw = cur + 1 < (int)NS ? cur + 1 : (int)NS; }
+      else if (--lc == 0) { cur = hw; lc = maxloop; if (cur != (int)NS) hw = cur + 1 < (int)NS ? cur + 1 : (int)NS; }
+    }
+  }
+  ASSERT(calls == vh_calls, "the loop ends exactly when a rule returns past the end");
   VH_END();
 }
